@@ -1,7 +1,7 @@
 ----------------------------- MODULE LineMapGen -----------------------------
 (* generator of {offset |-> line} mappings with strictly increasing offsets for C19: every offset-gap class  *)
 (* (needing 0, 1 or 2 continuation entries) x every line-gap class (beyond +-127 / 255, decreasing lines).   *)
-(* The mapping always starts with <<0, first>>.  Each complete mapping is exported; the frozen table xdis     *)
+(* The mapping always starts at offset 0.  Each complete mapping is exported; the frozen table xdis     *)
 (* produces for it is decoded by the reader machine of LineTables.tla and must give the mapping back.        *)
 EXTENDS Integers, Sequences, TLC, Json, IOUtils, TLCExt
 Cfg == JsonDeserialize(IOEnv.GEN_CFG)            \* [maxlen, export, rich]
@@ -11,7 +11,8 @@ First == 1000
 OffGaps == IF Cfg.rich = 1 THEN {2, 6, 254, 256, 258, 510, 512, 600} ELSE {2, 254, 256, 600}
 LineGaps == IF Cfg.rich = 1 THEN {1, 2, 127, 128, 129, 254, 255, 256, 257, 400, 600, -1, -2, -127, -128, -129, -300}
             ELSE {1, 127, 128, 255, 256, 400, -1, -128, -129, -300}
-Init == m = << <<0, First>> >> /\ done = FALSE
+(* the line at offset 0 is co_firstlineno, or later (a decorated function: the def line is above the first statement) *)
+Init == m \in { << <<0, First>> >>, << <<0, First + 2>> >> } /\ done = FALSE
 Add == /\ ~done /\ Len(m) <= Cfg.maxlen
        /\ \E og \in OffGaps, lg \in LineGaps :
             m' = Append(m, <<m[Len(m)][1] + og, m[Len(m)][2] + lg>>)
